@@ -292,6 +292,8 @@ func (c *c02Engine) exec(op map[string]interface{}) map[string]interface{} {
 	switch op["op"] {
 	case "reset":
 		return c.c01.exec(op)
+	case "selftest":
+		return map[string]interface{}{"ok": true}
 	case "opt":
 		q := c01Stmts(op["q"])
 		stmts, err := StmtsFromJSON(toIfaces(q))
@@ -422,6 +424,7 @@ func c02Filters() []c01Stmt {
 		{"hasLabel": sl("B", "A", "B")},
 		c02Has(c02C("_gid", "EQ", "v1")),
 		c02Has(c02C("$._gid", "EQ", "v2")),
+		c02Has(c02C("$a._gid", "EQ", "v1")),
 		c02Has(c02C("_gid", "WITHIN", sl("v1", "v3", "v1"))),
 		c02Has(c02C("_gid", "WITHIN", sl())),
 		c02Has(c02C("_gid", "NEQ", "v1")),
@@ -619,6 +622,7 @@ func c02Gen(r *Run) {
 		graphs = append(graphs, c01Graph(r.Rng, kind))
 	}
 	r.AddSample(graphs[0])
+	emit(map[string]interface{}{"op": "selftest"})
 
 	// (1) optimizer output, syntactically: all leading-filter sequences to length 2 (3 thorough)
 	// over the filter alphabet, each with and without a tail, plus starts that must not be rewritten
